@@ -137,3 +137,1313 @@ Proof.
   destruct (feed_segments pinit segs) as [[p o] go]. cbn in H. apply canon_wf.
   destruct go; apply Forall_app; split; try assumption; [apply finish_wf|repeat constructor].
 Qed.
+
+(* ================= B. handleSequence on every deliverable sequence ================= *)
+
+Lemma par_p00 ps : par ps 0 = p00 ps.
+Proof. destruct ps as [|[|v p] t]; reflexivity. Qed.
+
+Lemma par_some ps k : nonempty_all ps -> 0 <= k < zlen ps -> exists v, par ps k = Some v.
+Proof.
+  intros Hps Hk. unfold par. destruct (zget_in_range ps k Hk) as [p Hp]. rewrite Hp.
+  pose proof (zget_In _ _ _ Hp) as Hin. unfold nonempty_all in Hps. rewrite Forall_forall in Hps.
+  specialize (Hps p Hin). destruct p as [|v p']; [congruence|]. exists v. reflexivity.
+Qed.
+
+Lemma split_on_nonempty c s : forall cur, exists h t, split_on c cur s = h :: t.
+Proof.
+  induction s as [|x s IH]; intros cur; cbn [split_on]; [eauto|].
+  destruct (x =? c); [eauto|apply IH].
+Qed.
+
+Lemma suffixb_nonempty p q (s : list Z) : suffixb (p :: q) s = true -> s <> [].
+Proof.
+  intros H ->. unfold suffixb in H.
+  destruct (rev (p :: q)) eqn:E.
+  - apply (f_equal (@length Z)) in E. rewrite rev_length in E. discriminate.
+  - cbn in H. discriminate.
+Qed.
+
+Lemma land_low cb m : Z.land m 255 = m -> Z.land cb m = Z.land (cb mod 256) m.
+Proof.
+  intros H. rewrite <- H at 1. rewrite (Z.land_comm m 255), Z.land_assoc.
+  change 255 with (Z.ones 8). rewrite Z.land_ones by lia. reflexivity.
+Qed.
+
+Lemma testbit_low cb k : 0 <= k < 8 -> Z.testbit cb k = Z.testbit (cb mod 256) k.
+Proof. intros H. change 256 with (2 ^ 8). symmetry. apply Z.mod_pow2_bits_low. lia. Qed.
+
+Lemma arith_low cb : cb mod 4 + 64 * ((cb / 64) mod 4) = (cb mod 256) mod 4 + 64 * (((cb mod 256) / 64) mod 4).
+Proof. Z.div_mod_to_equations. lia. Qed.
+
+Definition byte_range : list Z := map Z.of_nat (seq 0 256).
+Lemma in_byte_range x : 0 <= x < 256 -> In x byte_range.
+Proof.
+  intros H. unfold byte_range. apply in_map_iff. exists (Z.to_nat x). split; [lia|].
+  apply in_seq. lia.
+Qed.
+
+Definition bits_check (x : Z) : bool :=
+  (Z.land x 195 =? x mod 4 + 64 * ((x / 64) mod 4)) &&
+  Bool.eqb (negb (Z.land x 32 =? 0)) (Z.testbit x 5) &&
+  Bool.eqb (negb (Z.land x 4 =? 0)) (Z.testbit x 2) &&
+  Bool.eqb (negb (Z.land x 8 =? 0)) (Z.testbit x 3) &&
+  Bool.eqb (negb (Z.land x 16 =? 0)) (Z.testbit x 4).
+
+Lemma bits_check_all : forallb bits_check byte_range = true.
+Proof. vm_compute. reflexivity. Qed.
+
+Lemma bits_facts cb :
+  Z.land cb 195 = cb mod 4 + 64 * ((cb / 64) mod 4) /\
+  negb (Z.land cb 32 =? 0) = Z.testbit cb 5 /\
+  negb (Z.land cb 4 =? 0) = Z.testbit cb 2 /\
+  negb (Z.land cb 8 =? 0) = Z.testbit cb 3 /\
+  negb (Z.land cb 16 =? 0) = Z.testbit cb 4.
+Proof.
+  pose proof bits_check_all as H. rewrite forallb_forall in H.
+  assert (Hx : 0 <= cb mod 256 < 256) by (apply Z.mod_pos_bound; lia).
+  specialize (H _ (in_byte_range _ Hx)). unfold bits_check in H.
+  repeat (apply andb_prop in H; destruct H as [H ?]).
+  rewrite (land_low cb 195), (land_low cb 32), (land_low cb 4), (land_low cb 8), (land_low cb 16) by reflexivity.
+  rewrite (testbit_low cb 5), (testbit_low cb 2), (testbit_low cb 3), (testbit_low cb 4) by lia.
+  rewrite arith_low.
+  repeat match goal with H : Bool.eqb _ _ = true |- _ => apply Bool.eqb_prop in H end.
+  apply Z.eqb_eq in H. repeat split; assumption.
+Qed.
+
+
+Lemma parse_mouse_spec inter ps fin : nonempty_all ps -> fin = 77 \/ fin = 109 ->
+  parse_mouse inter ps fin = Some (spec_mouse inter ps fin).
+Proof.
+  intros Hps Hfin. unfold parse_mouse, spec_mouse.
+  destruct inter as [|i0 [|i1 it]].
+  - reflexivity.
+  - cbn [zlen length Z.of_nat Z.eqb Pos.eqb negb Pos.of_succ_nat zget Z.ltb Z.compare Z.to_nat nth_error].
+    destruct (i0 =? 60) eqn:Ei; cbn [negb].
+    2:{ destruct ps as [|[|? ?] [|[|? ?] [|[|? ?] [|? ?]]]]; reflexivity. }
+    destruct ps as [|p0 [|p1 [|p2 [|p3 pt]]]].
+    + reflexivity.
+    + destruct p0; reflexivity.
+    + destruct p0, p1; reflexivity.
+    + pose proof (Forall_inv Hps) as H0. pose proof (Forall_inv (Forall_inv_tail Hps)) as H1.
+      pose proof (Forall_inv (Forall_inv_tail (Forall_inv_tail Hps))) as H2. cbv beta in H0, H1, H2.
+      destruct p0 as [|cb p0]; [congruence|]. destruct p1 as [|cx p1]; [congruence|].
+      destruct p2 as [|cy p2]; [congruence|].
+      cbn -[Z.land i64 Z.testbit Z.modulo Z.div Z.lor Z.mul Z.add].
+      change (par [cb :: p0; cx :: p1; cy :: p2] 1) with (Some cx).
+      change (par [cb :: p0; cx :: p1; cy :: p2] 2) with (Some cy).
+      destruct (bits_facts cb) as (Hb & H5 & H2' & H3 & H4).
+      unfold motion_bit, mouse_mod_shift, mouse_mod_alt, mouse_mod_ctrl, button_bits.
+      rewrite Hb, H5, H2', H3, H4.
+      do 3 f_equal.
+      * destruct Hfin as [-> | ->]; destruct (Z.testbit cb 5); reflexivity.
+      * destruct (Z.testbit cb 2), (Z.testbit cb 3), (Z.testbit cb 4); reflexivity.
+    + assert (E : (zlen (p0 :: p1 :: p2 :: p3 :: pt) =? 3) = false).
+      { rewrite !zlen_cons. pose proof (zlen_nonneg pt). lia. }
+      rewrite E. cbn [negb].
+      destruct p0 as [|? ?], p1 as [|? ?], p2 as [|? ?]; reflexivity.
+  - assert (E : (zlen (i0 :: i1 :: it) =? 1) = false).
+    { rewrite !zlen_cons. pose proof (zlen_nonneg it). lia. }
+    rewrite E. reflexivity.
+Qed.
+
+
+(* ---------- SGR mouse reports round-trip ---------- *)
+Lemma i64_id x : int64_ok x = true -> i64 x = x.
+Proof.
+  unfold int64_ok, i64. intros H.
+  assert (Hx : -9223372036854775808 <= x <= 9223372036854775807) by lia.
+  assert (Hm : x mod 18446744073709551616 = if x <? 0 then x + 18446744073709551616 else x).
+  { Z.div_mod_to_equations. destruct (x <? 0) eqn:E; lia. }
+  rewrite Hm. destruct (x <? 0) eqn:E.
+  - destruct (x + 18446744073709551616 <? 9223372036854775808) eqn:E2; lia.
+  - destruct (x <? 9223372036854775808) eqn:E2; lia.
+Qed.
+
+Definition rt_check (b : Z) (s a c m : bool) : bool :=
+  negb (button_ok b) ||
+  (let cb := sgr_cb b s a c m in
+   (Z.land cb 195 =? b) && Bool.eqb (negb (Z.land cb 32 =? 0)) m && Bool.eqb (negb (Z.land cb 4 =? 0)) s
+   && Bool.eqb (negb (Z.land cb 8 =? 0)) a && Bool.eqb (negb (Z.land cb 16 =? 0)) c).
+Definition bools := [false; true].
+Lemma rt_check_all :
+  forallb (fun b => forallb (fun s => forallb (fun a => forallb (fun c => forallb (fun m =>
+    rt_check b s a c m) bools) bools) bools) bools) byte_range = true.
+Proof. vm_compute. reflexivity. Qed.
+
+Lemma in_bools x : In x bools.
+Proof. destruct x; cbn; auto. Qed.
+
+Lemma button_ok_byte b : button_ok b = true -> 0 <= b < 256.
+Proof.
+  unfold button_ok, button_bits. intros H. apply andb_prop in H as [H0 H1].
+  assert (Hb : Z.land b 195 = b) by lia. rewrite (land_low b 195) in Hb by reflexivity.
+  assert (Hm : 0 <= b mod 256 < 256) by (apply Z.mod_pos_bound; lia).
+  assert (Hle : Z.land (b mod 256) 195 <= 195).
+  { assert (Hall : forallb (fun x => Z.land x 195 <=? 195) byte_range = true) by (vm_compute; reflexivity).
+    rewrite forallb_forall in Hall. specialize (Hall _ (in_byte_range _ Hm)). lia. }
+  lia.
+Qed.
+
+Lemma rt_facts b s a c m : button_ok b = true ->
+  let cb := sgr_cb b s a c m in
+  Z.land cb 195 = b /\ negb (Z.land cb 32 =? 0) = m /\ negb (Z.land cb 4 =? 0) = s /\
+  negb (Z.land cb 8 =? 0) = a /\ negb (Z.land cb 16 =? 0) = c.
+Proof.
+  intros Hb. pose proof rt_check_all as H. rewrite forallb_forall in H.
+  specialize (H b (in_byte_range b (button_ok_byte b Hb))).
+  rewrite forallb_forall in H. specialize (H s (in_bools s)).
+  rewrite forallb_forall in H. specialize (H a (in_bools a)).
+  rewrite forallb_forall in H. specialize (H c (in_bools c)).
+  rewrite forallb_forall in H. specialize (H m (in_bools m)).
+  unfold rt_check in H. rewrite Hb in H. cbn [negb orb] in H. cbv zeta in H |- *.
+  repeat (apply andb_prop in H; destruct H as [H ?]).
+  repeat match goal with H : Bool.eqb _ _ = true |- _ => apply Bool.eqb_prop in H end.
+  apply Z.eqb_eq in H. repeat split; assumption.
+Qed.
+
+(* every SGR report decodes to exactly the button, position, modifiers and type it encodes *)
+Theorem mouse_roundtrip b col row shift alt ctrl motion release :
+  button_ok b = true -> int64_ok col = true -> int64_ok row = true ->
+  parse_mouse [60] (sgr_params b col row shift alt ctrl motion) (sgr_final release)
+  = Some (Some (sgr_mouse b col row shift alt ctrl motion release)).
+Proof.
+  intros Hb Hc Hr. unfold sgr_params.
+  destruct (rt_facts b shift alt ctrl motion Hb) as (H1 & H2 & H3 & H4 & H5). cbv zeta in *.
+  set (cb := sgr_cb b shift alt ctrl motion) in *.
+  unfold parse_mouse.
+  change (zlen [60] =? 1) with true. change (zget [60] 0) with (Some 60). cbn [negb].
+  change (60 =? 60) with true. cbn [negb].
+  change (zlen [[cb]; [col + 1]; [row + 1]] =? 3) with true. cbn [negb].
+  change (par [[cb]; [col + 1]; [row + 1]] 0) with (Some cb).
+  change (par [[cb]; [col + 1]; [row + 1]] 1) with (Some (col + 1)).
+  change (par [[cb]; [col + 1]; [row + 1]] 2) with (Some (row + 1)).
+  unfold motion_bit, mouse_mod_shift, mouse_mod_alt, mouse_mod_ctrl, button_bits.
+  rewrite H1, H2, H3, H4, H5.
+  replace (row + 1 - 1) with row by lia. replace (col + 1 - 1) with col by lia.
+  rewrite (i64_id row Hr), (i64_id col Hc). unfold sgr_mouse, sgr_final.
+  do 3 f_equal.
+  - destruct motion, release; reflexivity.
+  - destruct shift, alt, ctrl; reflexivity.
+Qed.
+
+Section WithOracles.
+Variable dec : item -> ikey.
+Variable b64 : list Z -> option (list Z).
+
+Definition live (s : vxstate) : Prop := q_stalled s = None.
+
+(* the outcome is Ok, the queue is still being read, the user events are [ue] and the paste /
+   request flags are [p'] / [r'] *)
+Definition okspec (ue : list event) (p' r' : bool) (o : outcome) : Prop :=
+  exists s' es, o = Ok s' es /\ live s' /\ user_events es = ue /\ paste s' = p' /\ req_cursor s' = r'.
+
+Lemma user_events_app a b : user_events (a ++ b) = user_events a ++ user_events b.
+Proof. unfold user_events, events_of. rewrite flat_map_app, filter_app. reflexivity. Qed.
+
+Lemma okspec_bind ue1 p1 r1 ue2 p2 r2 o f :
+  okspec ue1 p1 r1 o ->
+  (forall s1, live s1 -> paste s1 = p1 -> req_cursor s1 = r1 -> okspec ue2 p2 r2 (f s1)) ->
+  okspec (ue1 ++ ue2) p2 r2 (bind o f).
+Proof.
+  intros (s1 & es1 & -> & Hl1 & Hu1 & Hp1 & Hr1) Hf.
+  destruct (Hf s1 Hl1 Hp1 Hr1) as (s2 & es2 & E2 & Hl2 & Hu2 & Hp2 & Hr2).
+  exists s2, (es1 ++ es2). cbn [bind]. rewrite E2. repeat split; try assumption.
+  rewrite user_events_app. congruence.
+Qed.
+
+Lemma okspec_post e s : live s ->
+  okspec (if is_user e then [e] else []) (paste s) (req_cursor s) (post e s).
+Proof.
+  intros Hl. unfold post. rewrite Hl. exists s, [Ev e]. repeat split; assumption.
+Qed.
+
+Lemma okspec_try_post e s : live s ->
+  okspec (if is_user e then [e] else []) (paste s) (req_cursor s) (try_post e s).
+Proof.
+  intros Hl. unfold try_post. rewrite Hl. exists s, [Ev e]. repeat split; assumption.
+Qed.
+
+Lemma okspec_ret s : live s -> okspec [] (paste s) (req_cursor s) (ret s).
+Proof. intros Hl. exists s, []. repeat split; assumption. Qed.
+
+Lemma okspec_post_key it s : live s ->
+  okspec [EKey (if paste s then mark_paste (dec it) else dec it)] (paste s) (req_cursor s)
+         (post_key dec it s).
+Proof. intros Hl. apply (okspec_post (EKey _) s Hl). Qed.
+
+Lemma da1_loop_quiet ps : forall s, nonempty_all ps -> live s ->
+  okspec [] (paste s) (req_cursor s) (da1_loop ps s).
+Proof.
+  induction ps as [|p t IH]; intros s Hps Hl; cbn [da1_loop]; [apply okspec_ret; assumption|].
+  inversion Hps as [|? ? Hp Ht]; subst. destruct p as [|v p']; [congruence|].
+  cbn [zget Z.ltb Z.compare nth_error Z.to_nat need].
+  change (@nil event) with (@nil event ++ []).
+  apply okspec_bind with (p1 := paste s) (r1 := req_cursor s).
+  - destruct (v =? 4); [apply (okspec_post (ECap CSixel) s Hl)|apply okspec_ret; assumption].
+  - intros s1 Hl1 <- <-. apply IH; assumption.
+Qed.
+
+Definition spec_ok (s : vxstate) (it : item) (o : outcome) : Prop :=
+  let '(ue, p', r') := spec_item dec (paste s) (req_cursor s) it in okspec ue p' r' o.
+
+Ltac start := intros Hps Hl; unfold spec_ok, spec_item, classify, handle_csi, key_csi; cbn.
+Ltac by_post Hl := first [ exact (okspec_post _ _ Hl) | exact (okspec_try_post _ _ Hl)
+                         | exact (okspec_ret _ Hl) | exact (okspec_post_key _ _ Hl) ].
+(* resolve `need (par ps k)` from the length facts in the context *)
+Ltac need_par Hps :=
+  match goal with
+  | |- context [need (par ?ps ?k) _] =>
+      let v := fresh "v" in let E := fresh "Ev" in
+      destruct (par_some ps k Hps) as [v E]; [pose proof (zlen_nonneg ps); lia|]; rewrite E; cbn [need]
+  end.
+
+Lemma csi_c inter ps s : nonempty_all ps -> live s -> spec_ok s (ICsi inter ps 99) (handle_csi dec inter ps 99 s).
+Proof.
+  start. destruct (is_q inter); cbn; [|by_post Hl].
+  change (@nil event) with (@nil event ++ []).
+  apply okspec_bind with (p1 := paste s) (r1 := req_cursor s); [apply da1_loop_quiet; assumption|].
+  intros s1 Hl1 <- <-. by_post Hl1.
+Qed.
+
+Lemma csi_I inter ps s : nonempty_all ps -> live s -> spec_ok s (ICsi inter ps 73) (handle_csi dec inter ps 73 s).
+Proof. start. by_post Hl. Qed.
+Lemma csi_O inter ps s : nonempty_all ps -> live s -> spec_ok s (ICsi inter ps 79) (handle_csi dec inter ps 79 s).
+Proof. start. by_post Hl. Qed.
+
+Lemma csi_R inter ps s : nonempty_all ps -> live s -> spec_ok s (ICsi inter ps 82) (handle_csi dec inter ps 82 s).
+Proof.
+  start. destruct (req_cursor s) eqn:Er; cbn; [|rewrite <- Er; by_post Hl].
+  destruct (zlen ps =? 2) eqn:E2; cbn [negb].
+  - do 2 need_par Hps. unfold send_cursor. cbn.
+    destruct (w_cursor s); eexists; eexists; (split; [reflexivity|]); repeat split; exact Hl.
+  - eexists; eexists; (split; [reflexivity|]); repeat split; exact Hl.
+Qed.
+
+Lemma csi_S inter ps s : nonempty_all ps -> live s -> spec_ok s (ICsi inter ps 83) (handle_csi dec inter ps 83 s).
+Proof.
+  start. destruct (is_q inter); cbn; [|by_post Hl].
+  destruct (zlen ps <? 3) eqn:E3; cbn; [by_post Hl|].
+  need_par Hps. destruct (v =? 2); [|by_post Hl].
+  need_par Hps. destruct (v0 =? 0); by_post Hl.
+Qed.
+
+Lemma csi_n inter ps s : nonempty_all ps -> live s -> spec_ok s (ICsi inter ps 110) (handle_csi dec inter ps 110 s).
+Proof.
+  start. destruct (is_q inter); cbn; [|by_post Hl].
+  destruct (zlen ps =? 2) eqn:E2; cbn; [|by_post Hl].
+  need_par Hps. destruct (v =? 997); [|by_post Hl].
+  need_par Hps. by_post Hl.
+Qed.
+
+Lemma decrpm_quiet ps c s : nonempty_all ps -> live s ->
+  okspec [] (paste s) (req_cursor s) (decrpm ps c s).
+Proof.
+  intros Hps Hl. unfold decrpm. destruct (zlen ps <? 2) eqn:E; [by_post Hl|].
+  need_par Hps. destruct ((v =? 1) || (v =? 2)); by_post Hl.
+Qed.
+
+Lemma csi_y inter ps s : nonempty_all ps -> live s -> spec_ok s (ICsi inter ps 121) (handle_csi dec inter ps 121 s).
+Proof.
+  start. destruct (zlen ps <? 1) eqn:E1; [by_post Hl|].
+  need_par Hps.
+  destruct (v =? 2026); [apply decrpm_quiet; assumption|].
+  destruct (v =? 2027); [apply decrpm_quiet; assumption|].
+  destruct (v =? 2031); [apply decrpm_quiet; assumption|]. by_post Hl.
+Qed.
+
+Lemma csi_u inter ps s : nonempty_all ps -> live s -> spec_ok s (ICsi inter ps 117) (handle_csi dec inter ps 117 s).
+Proof. start. destruct (is_q inter); cbn; by_post Hl. Qed.
+
+Lemma csi_tilde inter ps s : nonempty_all ps -> live s -> spec_ok s (ICsi inter ps 126) (handle_csi dec inter ps 126 s).
+Proof.
+  start. unfold p00_is. rewrite <- par_p00.
+  destruct (zlen inter =? 0) eqn:Ei; cbn; [|by_post Hl].
+  destruct (zlen ps =? 0) eqn:Ep.
+  - assert (ps = []) by (apply zlen_zero_nil; lia). subst ps. cbn. by_post Hl.
+  - need_par Hps. destruct (v =? 200) eqn:E200; cbn.
+    + exact (okspec_post EPasteStart (set_paste s true) Hl).
+    + destruct (v =? 201) eqn:E201; cbn; [exact (okspec_post EPasteEnd (set_paste s false) Hl)|by_post Hl].
+Qed.
+
+Lemma csi_mouse inter ps fin s : fin = 77 \/ fin = 109 -> nonempty_all ps -> live s ->
+  spec_ok s (ICsi inter ps fin) (handle_csi dec inter ps fin s).
+Proof.
+  intros Hfin Hps Hl. unfold spec_ok, spec_item, classify, handle_csi, key_csi.
+  rewrite (parse_mouse_spec inter ps fin Hps Hfin).
+  destruct Hfin as [-> | ->]; cbn; destruct (spec_mouse inter ps _); by_post Hl.
+Qed.
+
+Lemma send_size_done_quiet s : live s -> okspec [] (paste s) (req_cursor s) (send_size_done s).
+Proof.
+  intros Hl. unfold send_size_done. destruct (size_done s <? 1); [|by_post Hl].
+  eexists; eexists; (split; [reflexivity|]); repeat split; exact Hl.
+Qed.
+
+Lemma csi_t inter ps s : nonempty_all ps -> live s -> spec_ok s (ICsi inter ps 116) (handle_csi dec inter ps 116 s).
+Proof.
+  start. destruct (zlen ps <? 3) eqn:E3; [by_post Hl|].
+  do 3 need_par Hps.
+  destruct (v =? 4).
+  { destruct (negb (c_pix (vcaps s))).
+    - exact (okspec_post (ECap CPix) (set_next_size s _) Hl).
+    - exact (okspec_ret (set_next_size s _) Hl). }
+  destruct (v =? 8).
+  { destruct (negb (c_chars (vcaps s))).
+    - exact (okspec_post (ECap CChars) (set_next_size s _) Hl).
+    - exact (send_size_done_quiet (set_next_size s _) Hl). }
+  destruct (v =? 48); [|by_post Hl].
+  destruct (zlen ps =? 5) eqn:E5; [|by_post Hl].
+  do 2 need_par Hps.
+  change (@nil event) with (@nil event ++ []).
+  apply okspec_bind with (p1 := paste s) (r1 := req_cursor s).
+  - destruct (negb (c_inband (vcaps s))).
+    + exact (okspec_post (ECap CInband) (set_next_size (set_resize s true) _) Hl).
+    + exact (okspec_ret (set_next_size (set_resize s true) _) Hl).
+  - intros s1 Hl1 <- <-. by_post Hl1.
+Qed.
+
+(* every other final byte: a key *)
+Lemma csi_other inter ps fin s : nonempty_all ps -> live s ->
+  (fin =? 99) = false -> (fin =? 73) = false -> (fin =? 79) = false -> (fin =? 82) = false ->
+  (fin =? 83) = false -> (fin =? 110) = false -> (fin =? 121) = false -> (fin =? 117) = false ->
+  (fin =? 126) = false -> (fin =? 77) = false -> (fin =? 109) = false -> (fin =? 116) = false ->
+  spec_ok s (ICsi inter ps fin) (handle_csi dec inter ps fin s).
+Proof.
+  intros Hps Hl E1 E2 E3 E4 E5 E6 E7 E8 E9 E10 E11 E12.
+  unfold spec_ok, spec_item, classify, handle_csi, key_csi.
+  rewrite E1, E2, E3, E4, E5, E6, E7, E8, E9, E10, E11, E12. cbn. by_post Hl.
+Qed.
+
+Lemma handle_csi_spec inter ps fin s : nonempty_all ps -> live s ->
+  spec_ok s (ICsi inter ps fin) (handle_csi dec inter ps fin s).
+Proof.
+  intros Hps Hl.
+  destruct (fin =? 99) eqn:E1; [apply Z.eqb_eq in E1; subst; apply csi_c; assumption|].
+  destruct (fin =? 73) eqn:E2; [apply Z.eqb_eq in E2; subst; apply csi_I; assumption|].
+  destruct (fin =? 79) eqn:E3; [apply Z.eqb_eq in E3; subst; apply csi_O; assumption|].
+  destruct (fin =? 82) eqn:E4; [apply Z.eqb_eq in E4; subst; apply csi_R; assumption|].
+  destruct (fin =? 83) eqn:E5; [apply Z.eqb_eq in E5; subst; apply csi_S; assumption|].
+  destruct (fin =? 110) eqn:E6; [apply Z.eqb_eq in E6; subst; apply csi_n; assumption|].
+  destruct (fin =? 121) eqn:E7; [apply Z.eqb_eq in E7; subst; apply csi_y; assumption|].
+  destruct (fin =? 117) eqn:E8; [apply Z.eqb_eq in E8; subst; apply csi_u; assumption|].
+  destruct (fin =? 126) eqn:E9; [apply Z.eqb_eq in E9; subst; apply csi_tilde; assumption|].
+  destruct (fin =? 77) eqn:E10; [apply Z.eqb_eq in E10; apply csi_mouse; auto|].
+  destruct (fin =? 109) eqn:E11; [apply Z.eqb_eq in E11; apply csi_mouse; auto|].
+  destruct (fin =? 116) eqn:E12; [apply Z.eqb_eq in E12; subst; apply csi_t; assumption|].
+  apply csi_other; assumption.
+Qed.
+
+Definition quiet (s : vxstate) (o : outcome) : Prop := okspec [] (paste s) (req_cursor s) o.
+
+Lemma handle_dcs_quiet fin inter ps data s : live s -> quiet s (handle_dcs fin inter ps data s).
+Proof.
+  intros Hl. unfold quiet, handle_dcs.
+  destruct (fin =? 114).
+  { destruct (zlen inter <? 1) eqn:Ei; [by_post Hl|].
+    destruct (zget_in_range inter 0) as [i0 E0]; [lia|]. rewrite E0. cbn [need].
+    destruct (i0 =? 43).
+    { destruct (zlen ps <? 1) eqn:Ep; [by_post Hl|].
+      destruct (zget_in_range ps 0) as [p0 Ep0]; [lia|]. rewrite Ep0. cbn [need].
+      destruct (p0 =? 0); [by_post Hl|].
+      destruct (split_on_nonempty 61 (gostring data) []) as (h & t & Es). rewrite Es.
+      change (zget (h :: t) 0) with (Some h). cbn [need].
+      destruct (zlist_eqb h hex_Smulx); [by_post Hl|]. destruct (zlist_eqb h hex_RGB); by_post Hl. }
+    destruct (i0 =? 36); [|by_post Hl].
+    destruct (suffixb [32; 113] (gostring data)) eqn:Es; [|by_post Hl].
+    apply suffixb_nonempty in Es. destruct data as [|d0 dt]; [exfalso; apply Es; reflexivity|]. cbn.
+    destruct ((d0 <? 48) || (54 <? d0)); [by_post Hl|]. exact (okspec_ret (set_user_cursor s _) Hl). }
+  destruct (fin =? 124); [|by_post Hl].
+  destruct (zlen inter <? 1) eqn:Ei; [by_post Hl|].
+  destruct (zget_in_range inter 0) as [i0 E0]; [lia|]. rewrite E0. cbn [need].
+  destruct (i0 =? 33); [destruct (zlist_eqb (gostring data) hex_VTE); by_post Hl|].
+  destruct (i0 =? 62); by_post Hl.
+Qed.
+
+Lemma osc_color_quiet cap get set c pl s :
+  (forall v, live (set s v)) -> (forall v, paste (set s v) = paste s) ->
+  (forall v, req_cursor (set s v) = req_cursor s) -> live s ->
+  quiet s (osc_color cap get set c pl s).
+Proof.
+  intros H1 H2 H3 Hl. unfold quiet, osc_color. destruct cap.
+  - rewrite <- (H2 (offer (get s) pl)), <- (H3 (offer (get s) pl)).
+    exact (okspec_post (ECap c) _ (H1 _)).
+  - by_post Hl.
+Qed.
+
+Lemma send_clip_quiet v s : live s -> quiet s (send_clip v s).
+Proof.
+  intros Hl. unfold quiet, send_clip. destruct (w_clip s); [|by_post Hl].
+  eexists; eexists; (split; [reflexivity|]); repeat split; exact Hl.
+Qed.
+
+Lemma quiet_bind s o f : quiet s o ->
+  (forall s1, live s1 -> paste s1 = paste s -> req_cursor s1 = req_cursor s -> quiet s1 (f s1)) ->
+  quiet s (bind o f).
+Proof.
+  intros Ho Hf. unfold quiet. change (@nil event) with (@nil event ++ []).
+  apply okspec_bind with (p1 := paste s) (r1 := req_cursor s); [exact Ho|].
+  intros s1 Hl1 Hp1 Hr1. rewrite <- Hp1, <- Hr1. apply Hf; assumption.
+Qed.
+
+Lemma handle_osc_quiet payload s : live s -> quiet s (handle_osc b64 payload s).
+Proof.
+  intros Hl. unfold handle_osc.
+  apply quiet_bind.
+  { destruct (prefixb [52] (gostring payload)); [|exact (okspec_ret s Hl)].
+    apply osc_color_quiet; auto. }
+  intros s1 Hl1 _ _. apply quiet_bind.
+  { destruct (prefixb [49; 48] (gostring payload)); [|exact (okspec_ret s1 Hl1)].
+    apply osc_color_quiet; auto. }
+  intros s2 Hl2 _ _. apply quiet_bind.
+  { destruct (prefixb [49; 49] (gostring payload)); [|exact (okspec_ret s2 Hl2)].
+    apply osc_color_quiet; auto. }
+  intros s3 Hl3 _ _. unfold quiet.
+  destruct (prefixb [53; 50] (gostring payload)).
+  { destruct (zlen (split_on 59 [] (gostring payload)) =? 3) eqn:E3; cbn [negb]; [|by_post Hl3].
+    destruct (zget_in_range (split_on 59 [] (gostring payload)) 2) as [v2 E2]; [lia|]. rewrite E2. cbn [need].
+    destruct (b64 v2); [apply send_clip_quiet; assumption|by_post Hl3]. }
+  destruct (prefixb [49; 55; 54] (gostring payload)); [|by_post Hl3].
+  destruct (zlen (split_on 59 [] (gostring payload)) =? 2) eqn:E2; cbn [negb]; [|by_post Hl3].
+  destruct (zget_in_range (split_on 59 [] (gostring payload)) 1) as [v1 E1]; [lia|]. rewrite E1. cbn [need].
+  by_post Hl3.
+Qed.
+
+(* THE per-sequence statement: on every sequence the parser can deliver, while the application
+   keeps reading events, handleSequence neither panics nor blocks, emits exactly the user
+   events the sequence stands for, and leaves the paste / request flags as specified *)
+Lemma handle_spec s it : wf it -> live s -> spec_ok s it (handle dec b64 s it).
+Proof.
+  intros Hwf Hl. destruct it; try (exact (okspec_post_key _ s Hl)); try (exact (okspec_ret s Hl)).
+  - apply handle_csi_spec; [apply wf_csi_iff in Hwf|]; assumption.
+  - exact (handle_osc_quiet _ s Hl).
+  - exact (handle_dcs_quiet _ _ _ _ s Hl).
+  - unfold spec_ok, spec_item, classify, handle.
+    destruct (zlen data =? 0); [by_post Hl|]. destruct (prefixb [71] data); by_post Hl.
+Qed.
+
+(* application actions that keep the queue drained *)
+Definition app_ok (a : appact) : Prop := match a with AQueue (Some _) => False | _ => True end.
+Definition step_ok (x : step) : Prop := match x with SItem it => wf it | SApp a => app_ok a end.
+
+Lemma app_step_facts s a : app_ok a -> live s ->
+  live (app_step s a) /\ paste (app_step s a) = paste s /\
+  req_cursor (app_step s a) = spec_app (req_cursor s) a.
+Proof.
+  intros Ha Hl. destruct a as [| | | | | | | | |[n|]]; cbn in Ha |- *; try contradiction;
+    repeat split; try exact Hl; reflexivity.
+Qed.
+
+Theorem run_steps_spec l : forall s, Forall step_ok l -> live s ->
+  exists s' es, run_steps dec b64 s l = Ok s' es /\ live s' /\
+    user_events es = spec_user dec (paste s) (req_cursor s) l.
+Proof.
+  induction l as [|x t IH]; intros s Hok Hl.
+  - exists s, []. repeat split; assumption.
+  - pose proof (Forall_inv Hok) as Hx. pose proof (Forall_inv_tail Hok) as Ht.
+    destruct x as [it|a].
+    + assert (Hgen : exists s' es, bind (handle dec b64 s it) (fun s1 => run_steps dec b64 s1 t) = Ok s' es /\ live s' /\
+                user_events es = (let '(es0, p', req') := spec_item dec (paste s) (req_cursor s) it in
+                                  es0 ++ spec_user dec p' req' t)).
+      { pose proof (handle_spec s it Hx Hl) as H. unfold spec_ok in H.
+        destruct (spec_item dec (paste s) (req_cursor s) it) as [[ue p'] r'].
+        destruct H as (s1 & es1 & E1 & Hl1 & Hu1 & Hp1 & Hr1).
+        destruct (IH s1 Ht Hl1) as (s2 & es2 & E2 & Hl2 & Hu2).
+        exists s2, (es1 ++ es2). rewrite E1. cbn [bind]. rewrite E2. repeat split; [assumption|].
+        rewrite user_events_app, Hu1, Hu2, Hp1, Hr1. reflexivity. }
+      destruct it; try exact Hgen.
+      exists s, []. repeat split; assumption.
+    + cbn [run_steps spec_user]. destruct (app_step_facts s a Hx Hl) as (Hl1 & Hp1 & Hr1).
+      destruct (IH (app_step s a) Ht Hl1) as (s2 & es2 & E2 & Hl2 & Hu2).
+      exists s2, es2. repeat split; try assumption. rewrite Hu2, Hp1, Hr1. reflexivity.
+Qed.
+
+Lemma bind_ext o f g : (forall s, f s = g s) -> bind o f = bind o g.
+Proof. intros H. destruct o; cbn [bind]; [rewrite H|..]; reflexivity. Qed.
+
+Lemma run_is_run_steps its : forall s, run dec b64 s its = run_steps dec b64 s (map SItem its).
+Proof.
+  induction its as [|it t IH]; intros s; [reflexivity|].
+  cbn [map run run_steps]. destruct it; try reflexivity; apply bind_ext; intros; apply IH.
+Qed.
+
+(* ---------- user reports: encoders, and the events they must produce ---------- *)
+Inductive report :=
+  | RKey (it : item)            (* a key press or pasted character: the sequence the terminal sends *)
+  | RMouse (b col row : Z) (shift alt ctrl motion release : bool)
+  | RFocusIn | RFocusOut | RPasteStart | RPasteEnd.
+
+Definition enc_report (r : report) : item :=
+  match r with
+  | RKey it => it
+  | RMouse b col row sh al ct mo rel => ICsi [60] (sgr_params b col row sh al ct mo) (sgr_final rel)
+  | RFocusIn => ICsi [] [] 73
+  | RFocusOut => ICsi [] [] 79
+  | RPasteStart => ICsi [] [[200]] 126
+  | RPasteEnd => ICsi [] [[201]] 126
+  end.
+
+(* sequences that are keys whatever the state: Print, C0, ESC x, SS3 x, and every CSI that is
+   none of the reports Vaxis knows (final byte R excluded: it is also the cursor-position
+   report) *)
+Definition key_item (it : item) : bool :=
+  match it with
+  | IPrint _ | IC0 _ | IEsc _ _ | ISS3 _ => true
+  | ICsi inter ps fin => wf_item it && key_csi inter ps fin
+  | _ => false
+  end.
+Definition is_csi_R (it : item) : bool := match it with ICsi _ _ fin => fin =? 82 | _ => false end.
+
+Definition report_ok (req : bool) (r : report) : bool :=
+  match r with
+  | RKey it => key_item it && negb (is_csi_R it && req)
+  | RMouse b col row _ _ _ _ _ => button_ok b && int64_ok col && int64_ok row
+  | _ => true
+  end.
+
+Inductive selem := SUser (r : report) | SOther (it : item) | SAct (a : appact).
+Definition enc_elem (e : selem) : step :=
+  match e with SUser r => SItem (enc_report r) | SOther it => SItem it | SAct a => SApp a end.
+
+(* a stream of user reports interleaved with anything that is not user input (replies, solicited
+   or not, repeated, malformed; garbage) and with the application's own queries *)
+Fixpoint stream_ok (req : bool) (l : list selem) : bool :=
+  match l with
+  | [] => true
+  | SUser r :: t => report_ok req r && stream_ok req t
+  | SOther it :: t =>
+      wf_item it && negb (item_eqb it IEof) &&
+      match classify req it with
+      | UInternal => stream_ok req t
+      | UCursorReply => stream_ok false t
+      | _ => false
+      end
+  | SAct a :: t => (match a with AQueue (Some _) => false | _ => true end) && stream_ok (spec_app req a) t
+  end.
+
+Definition reports_of (l : list selem) : list report :=
+  flat_map (fun e => match e with SUser r => [r] | _ => [] end) l.
+
+(* the events the application must see: one per report, in order, keys between the paste
+   brackets marked as pasted *)
+Fixpoint deliver (p : bool) (rs : list report) : list event :=
+  match rs with
+  | [] => []
+  | RKey it :: t => EKey (if p then mark_paste (dec it) else dec it) :: deliver p t
+  | RMouse b col row sh al ct mo rel :: t => EMouse (sgr_mouse b col row sh al ct mo rel) :: deliver p t
+  | RFocusIn :: t => EFocusIn :: deliver p t
+  | RFocusOut :: t => EFocusOut :: deliver p t
+  | RPasteStart :: t => EPasteStart :: deliver true t
+  | RPasteEnd :: t => EPasteEnd :: deliver false t
+  end.
+
+Lemma classify_key_csi req inter ps fin :
+  key_csi inter ps fin = true -> ((fin =? 82) && req) = false ->
+  classify req (ICsi inter ps fin) = UKey.
+Proof.
+  intros Hk Hr. unfold classify. rewrite Hr. unfold key_csi in Hk.
+  destruct (fin =? 99) eqn:E1.
+  { apply Z.eqb_eq in E1; subst. cbn. unfold key_csi. cbn. rewrite Hk. reflexivity. }
+  destruct (fin =? 73) eqn:E2; [cbn in Hk; discriminate|].
+  destruct (fin =? 79) eqn:E3; [cbn in Hk; discriminate|]. cbn [orb] in Hk.
+  destruct (fin =? 121) eqn:E4; [discriminate|].
+  destruct (fin =? 77) eqn:E5; [cbn in Hk; discriminate|].
+  destruct (fin =? 109) eqn:E6; [cbn in Hk; discriminate|]. cbn [orb] in Hk |- *.
+  destruct (fin =? 116) eqn:E7; [discriminate|].
+  assert (Hkc : key_csi inter ps fin = true).
+  { unfold key_csi. rewrite E1, E2, E3, E4, E5, E6, E7. cbn [orb]. exact Hk. }
+  destruct (fin =? 126) eqn:E8.
+  2:{ cbn [andb]. rewrite Hkc. reflexivity. }
+  rewrite Hkc. destruct (fin =? 83) eqn:E9; [lia|].
+  destruct (fin =? 110) eqn:E10; [lia|]. destruct (fin =? 117) eqn:E11; [lia|].
+  unfold p00_is. destruct (zlen inter =? 0); cbn [negb orb andb] in Hk |- *; [|reflexivity].
+  destruct (p00 ps) as [v|]; [|discriminate].
+  destruct (v =? 200); [discriminate|]. destruct (v =? 201); [discriminate|]. reflexivity.
+Qed.
+
+Lemma classify_mouse req inter ps fin : fin = 77 \/ fin = 109 ->
+  classify req (ICsi inter ps fin) =
+  match spec_mouse inter ps fin with Some m => UMouse m | None => UInternal end.
+Proof. intros [-> | ->]; reflexivity. Qed.
+
+Lemma spec_item_report p req r : report_ok req r = true ->
+  spec_item dec p req (enc_report r) =
+  (deliver p [r],
+   match r with RPasteStart => true | RPasteEnd => false | _ => p end, req).
+Proof.
+  intros Hok. destruct r as [it|b col row sh al ct mo rel| | | |]; cbn [enc_report deliver]; try reflexivity.
+  - cbn [report_ok] in Hok. apply andb_prop in Hok as [Hk Hr]. unfold spec_item.
+    destruct it; try discriminate; try reflexivity.
+    cbn [key_item] in Hk. apply andb_prop in Hk as [_ Hk]. cbn [is_csi_R] in Hr.
+    rewrite (classify_key_csi req inter ps final Hk); [reflexivity|].
+    destruct ((final =? 82) && req); [discriminate|reflexivity].
+  - cbn [report_ok] in Hok. apply andb_prop in Hok as [Hok Hr]. apply andb_prop in Hok as [Hb Hc].
+    assert (Hps : nonempty_all (sgr_params b col row sh al ct mo)) by (repeat constructor; discriminate).
+    assert (Hfin : sgr_final rel = 77 \/ sgr_final rel = 109) by (destruct rel; auto).
+    pose proof (parse_mouse_spec [60] _ _ Hps Hfin) as Hspec.
+    rewrite (mouse_roundtrip b col row sh al ct mo rel Hb Hc Hr) in Hspec.
+    assert (Hs : spec_mouse [60] (sgr_params b col row sh al ct mo) (sgr_final rel) =
+                 Some (sgr_mouse b col row sh al ct mo rel)) by congruence.
+    unfold spec_item. rewrite (classify_mouse req _ _ _ Hfin), Hs. reflexivity.
+Qed.
+
+Lemma spec_user_stream l : forall p req, stream_ok req l = true ->
+  spec_user dec p req (map enc_elem l) = deliver p (reports_of l).
+Proof.
+  induction l as [|e t IH]; intros p req Hok; [reflexivity|].
+  destruct e as [r|it|a]; cbn [stream_ok] in Hok; cbn [map enc_elem reports_of flat_map].
+  - apply andb_prop in Hok as [Hr Ht].
+    assert (Hne : forall t', spec_user dec p req (SItem (enc_report r) :: t') =
+                  (let '(es, p', req') := spec_item dec p req (enc_report r) in es ++ spec_user dec p' req' t')).
+    { intros t'. destruct r as [it| | | | |]; try reflexivity.
+      cbn [report_ok] in Hr. apply andb_prop in Hr as [Hk _]. destruct it; try discriminate; reflexivity. }
+    rewrite Hne, (spec_item_report p req r Hr).
+    rewrite (IH _ req Ht). destruct r; reflexivity.
+  - apply andb_prop in Hok as [Hw Hc]. apply andb_prop in Hw as [Hw Hne].
+    assert (Hcons : spec_user dec p req (SItem it :: map enc_elem t) =
+                  (let '(es, p', req') := spec_item dec p req it in es ++ spec_user dec p' req' (map enc_elem t))).
+    { destruct it; try reflexivity. discriminate. }
+    rewrite Hcons. unfold spec_item.
+    destruct (classify req it); try discriminate; cbn [app]; apply IH; assumption.
+  - apply andb_prop in Hok as [_ Ht]. cbn [spec_user]. apply IH; assumption.
+Qed.
+
+Lemma stream_steps_ok l : forall req, stream_ok req l = true -> Forall step_ok (map enc_elem l).
+Proof.
+  induction l as [|e t IH]; intros req Hok; [constructor|].
+  destruct e as [r|it|a]; cbn [stream_ok] in Hok; cbn [map enc_elem].
+  - apply andb_prop in Hok as [Hr Ht]. constructor; [|apply (IH _ Ht)].
+    destruct r as [it|b col row sh al ct mo rel| | | |]; try reflexivity.
+    cbn [report_ok] in Hr. apply andb_prop in Hr as [Hk _].
+    destruct it; try discriminate; try reflexivity.
+    cbn [key_item] in Hk. apply andb_prop in Hk as [Hk _]. exact Hk.
+  - apply andb_prop in Hok as [Hw Hc]. apply andb_prop in Hw as [Hw _].
+    constructor; [exact Hw|]. destruct (classify req it); try discriminate; eapply IH; eassumption.
+  - apply andb_prop in Hok as [Ha Ht]. constructor; [|apply (IH _ Ht)].
+    destruct a as [| | | | | | | | |[n|]]; try exact I. discriminate.
+Qed.
+
+(* user_input_exact *)
+Theorem user_input_exact l s : stream_ok (req_cursor s) l = true -> live s ->
+  exists s' es, run_steps dec b64 s (map enc_elem l) = Ok s' es /\
+    user_events es = deliver (paste s) (reports_of l).
+Proof.
+  intros Hok Hl.
+  destruct (run_steps_spec (map enc_elem l) s (stream_steps_ok l _ Hok) Hl) as (s' & es & E & _ & Hu).
+  exists s', es. split; [exact E|]. rewrite Hu. apply spec_user_stream. exact Hok.
+Qed.
+End WithOracles.
+
+(* ================= B2. any queue state: never a panic, blocks only by back-pressure ================= *)
+
+Section AnyQueue.
+Variable dec : item -> ikey.
+Variable b64 : list Z -> option (list Z).
+
+(* never a panic; a block only when nobody reads the queue; a drained queue stays drained *)
+Definition safe (q : option Z) (o : outcome) : Prop :=
+  match o with
+  | Ok s' _ => q = None -> q_stalled s' = None
+  | Panic _ => False
+  | Blocks _ => q <> None
+  end.
+
+Lemma safe_ret q s : (q = None -> q_stalled s = None) -> safe q (ret s).
+Proof. intros H; exact H. Qed.
+
+Lemma safe_post q e s : (q = None -> q_stalled s = None) -> safe q (post e s).
+Proof.
+  intros H. unfold post. destruct (q_stalled s) as [n|] eqn:E.
+  - destruct (0 <? n); cbn; intros Hq; specialize (H Hq); congruence.
+  - cbn. auto.
+Qed.
+
+Lemma safe_try_post q e s : (q = None -> q_stalled s = None) -> safe q (try_post e s).
+Proof.
+  intros H. unfold try_post. destruct (q_stalled s) as [n|] eqn:E.
+  - destruct (0 <? n); cbn; intros Hq; specialize (H Hq); congruence.
+  - cbn. auto.
+Qed.
+
+Lemma safe_bind q o f : safe q o -> (forall s1, (q = None -> q_stalled s1 = None) -> safe q (f s1)) ->
+  safe q (bind o f).
+Proof.
+  intros Ho Hf. destruct o as [s1 es1| |]; cbn in *; try assumption.
+  specialize (Hf s1 Ho). destruct (f s1); cbn in *; assumption.
+Qed.
+
+Lemma safe_post_key q it s : (q = None -> q_stalled s = None) -> safe q (post_key dec it s).
+Proof. apply safe_post. Qed.
+
+Ltac qside := first [ assumption | (intros; cbn; auto; fail) ].
+Ltac leaf :=
+  first [ apply safe_ret; qside | apply safe_post; qside | apply safe_try_post; qside
+        | apply safe_post_key; qside ].
+
+Lemma safe_da1 q ps : forall s, nonempty_all ps -> (q = None -> q_stalled s = None) -> safe q (da1_loop ps s).
+Proof.
+  induction ps as [|p t IH]; intros s Hps Hq; cbn [da1_loop]; [leaf|].
+  pose proof (Forall_inv Hps) as Hp. destruct p as [|v p']; [congruence|].
+  change (zget (v :: p') 0) with (Some v). cbn [need].
+  apply safe_bind; [destruct (v =? 4); leaf|]. intros s1 Hq1. apply IH; [exact (Forall_inv_tail Hps)|assumption].
+Qed.
+
+Ltac need_par Hps :=
+  match goal with
+  | |- context [need (par ?ps ?k) _] =>
+      let v := fresh "v" in let E := fresh "Ev" in
+      destruct (par_some ps k Hps) as [v E]; [pose proof (zlen_nonneg ps); lia|]; rewrite E; cbn [need]
+  end.
+
+Ltac crush Hps :=
+  repeat first
+    [ leaf
+    | need_par Hps
+    | match goal with
+      | |- safe _ (bind _ _) => apply safe_bind; [|intros ? ?]
+      | |- safe _ (if ?c then _ else _) => destruct c eqn:?
+      | |- safe _ (match ?c with _ => _ end) => destruct c eqn:?
+      end ].
+
+Lemma safe_csi q inter ps fin s : nonempty_all ps -> (q = None -> q_stalled s = None) ->
+  safe q (handle_csi dec inter ps fin s).
+Proof.
+  intros Hps Hq. unfold handle_csi, decrpm, send_cursor, send_size_done.
+  crush Hps.
+  all: try (apply safe_da1; assumption).
+  assert (Hfin : fin = 77 \/ fin = 109) by lia.
+  rewrite (parse_mouse_spec inter ps fin Hps Hfin) in *. discriminate.
+Qed.
+
+Ltac need_zget :=
+  match goal with
+  | |- context [need (zget ?l ?k) _] =>
+      let v := fresh "v" in let E := fresh "Ev" in
+      destruct (zget_in_range l k) as [v E]; [pose proof (zlen_nonneg l); lia|]; rewrite E; cbn [need]
+  end.
+
+Ltac crush0 :=
+  repeat first
+    [ leaf
+    | need_zget
+    | match goal with
+      | |- safe _ (bind _ _) => apply safe_bind; [|intros ? ?]
+      | |- safe _ (if ?c then _ else _) => destruct c eqn:?
+      | |- safe _ (match ?c with _ => _ end) => destruct c eqn:?
+      end ].
+
+Lemma safe_dcs q fin inter ps data s : (q = None -> q_stalled s = None) ->
+  safe q (handle_dcs fin inter ps data s).
+Proof.
+  intros Hq. unfold handle_dcs.
+  destruct (split_on_nonempty 61 (gostring data) []) as (h & t & Es). rewrite Es.
+  change (zget (h :: t) 0) with (Some h). cbn [need].
+  destruct (suffixb [32; 113] (gostring data)) eqn:Esuf.
+  - apply suffixb_nonempty in Esuf. destruct data as [|d0 dt]; [exfalso; apply Esuf; reflexivity|].
+    change (zget (d0 :: dt) 0) with (Some d0). cbn [need]. crush0.
+  - crush0.
+Qed.
+
+Lemma safe_osc q payload s : (q = None -> q_stalled s = None) -> safe q (handle_osc b64 payload s).
+Proof.
+  intros Hq. unfold handle_osc, osc_color, send_clip. crush0.
+  all: match goal with |- context [if ?c then _ else _] => destruct c end; leaf.
+Qed.
+
+Theorem handle_safe s it : wf it -> safe (q_stalled s) (handle dec b64 s it).
+Proof.
+  intros Hw. assert (Hq : q_stalled s = None -> q_stalled s = None) by auto.
+  destruct it; cbn [handle]; try leaf.
+  - apply safe_csi; [apply wf_csi_iff in Hw|]; assumption.
+  - apply safe_osc; assumption.
+  - apply safe_dcs; assumption.
+  - crush0.
+Qed.
+
+Definition not_panic (o : outcome) : Prop := match o with Panic _ => False | _ => True end.
+Definition item_wf_step (x : step) : Prop := match x with SItem it => wf it | SApp _ => True end.
+
+(* no interleaving whatsoever (the application may stop reading the queue at any time) makes
+   the input goroutine panic *)
+Theorem run_steps_never_panics l : forall s, Forall item_wf_step l -> not_panic (run_steps dec b64 s l).
+Proof.
+  induction l as [|x t IH]; intros s Hok; [exact I|].
+  pose proof (Forall_inv Hok) as Hx. pose proof (Forall_inv_tail Hok) as Ht.
+  destruct x as [it|a]; [|apply IH; assumption].
+  assert (Hgen : not_panic (bind (handle dec b64 s it) (fun s1 => run_steps dec b64 s1 t))).
+  { pose proof (handle_safe s it Hx) as Hs. destruct (handle dec b64 s it) as [s1 es1| |]; cbn in *; try exact I; try contradiction.
+    specialize (IH s1 Ht). destruct (run_steps dec b64 s1 t); cbn in *; auto. }
+  destruct it; try exact Hgen; exact I.
+Qed.
+End AnyQueue.
+
+(* ================= B3. each reply changes only what it reports ================= *)
+
+(* ---------- which sequence may touch what ---------- *)
+Definition csi_is (it : item) (f : Z) : bool := match it with ICsi _ _ fin => fin =? f | _ => false end.
+Definition csi_q_is (it : item) (f : Z) : bool := match it with ICsi inter _ fin => (fin =? f) && is_q inter | _ => false end.
+Definition csi_p0_is (it : item) (f v : Z) : bool :=
+  match it with ICsi _ ps fin => (fin =? f) && p00_is ps v | _ => false end.
+Definition osc_is (it : item) (pre : list Z) : bool :=
+  match it with IOsc payload => prefixb pre (gostring payload) | _ => false end.
+Definition dcs_is (it : item) (f i0 : Z) : bool :=
+  match it with IDcs fin (i :: _) _ _ => (fin =? f) && (i =? i0) | _ => false end.
+Definition apc_is (it : item) : bool := match it with IApc _ => true | _ => false end.
+
+(* the only sequences that can make handleSequence emit the capability event c *)
+Definition cap_source (c : capev) (it : item) : bool :=
+  match c with
+  | CSixel => csi_q_is it 99 || csi_q_is it 83
+  | COsc4 => osc_is it [52] | COsc10 => osc_is it [49; 48] | COsc11 => osc_is it [49; 49]
+  | CSync => csi_p0_is it 121 2026 | CUnicode => csi_p0_is it 121 2027 | CTheme => csi_p0_is it 121 2031
+  | CKittyKb => csi_q_is it 117
+  | CKittyGfx => apc_is it
+  | CSmulx => dcs_is it 114 43 || dcs_is it 124 33
+  | CRgb => dcs_is it 114 43
+  | CPix => csi_p0_is it 116 4 | CChars => csi_p0_is it 116 8 | CInband => csi_p0_is it 116 48
+  end.
+
+Definition ev_source (e : event) (it : item) : bool :=
+  match e with
+  | ECap c => cap_source c it
+  | EDA1 => csi_q_is it 99
+  | EColorTheme _ => csi_q_is it 110
+  | ERedraw => csi_p0_is it 116 48
+  | EAppID _ => osc_is it [49; 55; 54]
+  | ETermID _ => dcs_is it 124 62
+  | EResize _ | EQuit => false
+  | _ => true            (* user events: see user_input_exact *)
+  end.
+
+Definition is_paste_bracket (it : item) : bool := csi_p0_is it 126 200 || csi_p0_is it 126 201.
+
+Record frame (it : item) (s s' : vxstate) : Prop := {
+  fr_caps : vcaps s' = vcaps s;
+  fr_paste : paste s' = paste s \/ is_paste_bracket it = true;
+  fr_req : req_cursor s' = req_cursor s \/ csi_is it 82 = true;
+  fr_wcur : w_cursor s' = w_cursor s \/ csi_is it 82 = true;
+  fr_resize : resize s' = resize s \/ csi_p0_is it 116 48 = true;
+  fr_chars : (s_cols (next_size s') = s_cols (next_size s) /\ s_rows (next_size s') = s_rows (next_size s))
+             \/ csi_p0_is it 116 8 = true \/ csi_p0_is it 116 48 = true;
+  fr_pix : (s_xpix (next_size s') = s_xpix (next_size s) /\ s_ypix (next_size s') = s_ypix (next_size s))
+             \/ csi_p0_is it 116 4 = true \/ csi_p0_is it 116 48 = true;
+  fr_style : user_cursor s' = user_cursor s \/ dcs_is it 114 36 = true;
+  fr_sdone : size_done s' = size_done s \/ csi_p0_is it 116 8 = true;
+  fr_color : ch_color s' = ch_color s \/ osc_is it [52] = true;
+  fr_fg : ch_fg s' = ch_fg s \/ osc_is it [49; 48] = true;
+  fr_bg : ch_bg s' = ch_bg s \/ osc_is it [49; 49] = true;
+  fr_wclip : w_clip s' = w_clip s \/ osc_is it [53; 50] = true
+}.
+
+Lemma frame_refl it s : frame it s s.
+Proof. constructor; auto. Qed.
+
+Lemma or_eq_trans {A} (x y z : A) (P : Prop) : y = x \/ P -> z = y \/ P -> z = x \/ P.
+Proof. intros [H|H] [H'|H']; auto. left; congruence. Qed.
+Lemma or_eq2_trans {A B} (x y z : A) (x' y' z' : B) (P : Prop) :
+  (y = x /\ y' = x') \/ P -> (z = y /\ z' = y') \/ P -> (z = x /\ z' = x') \/ P.
+Proof. intros [[H1 H2]|H] [[H1' H2']|H']; auto. left; split; congruence. Qed.
+
+Lemma frame_trans it s s1 s2 : frame it s s1 -> frame it s1 s2 -> frame it s s2.
+Proof.
+  intros F G. constructor.
+  - rewrite (fr_caps _ _ _ G). apply (fr_caps _ _ _ F).
+  - exact (or_eq_trans _ _ _ _ (fr_paste _ _ _ F) (fr_paste _ _ _ G)).
+  - exact (or_eq_trans _ _ _ _ (fr_req _ _ _ F) (fr_req _ _ _ G)).
+  - exact (or_eq_trans _ _ _ _ (fr_wcur _ _ _ F) (fr_wcur _ _ _ G)).
+  - exact (or_eq_trans _ _ _ _ (fr_resize _ _ _ F) (fr_resize _ _ _ G)).
+  - exact (or_eq2_trans _ _ _ _ _ _ _ (fr_chars _ _ _ F) (fr_chars _ _ _ G)).
+  - exact (or_eq2_trans _ _ _ _ _ _ _ (fr_pix _ _ _ F) (fr_pix _ _ _ G)).
+  - exact (or_eq_trans _ _ _ _ (fr_style _ _ _ F) (fr_style _ _ _ G)).
+  - exact (or_eq_trans _ _ _ _ (fr_sdone _ _ _ F) (fr_sdone _ _ _ G)).
+  - exact (or_eq_trans _ _ _ _ (fr_color _ _ _ F) (fr_color _ _ _ G)).
+  - exact (or_eq_trans _ _ _ _ (fr_fg _ _ _ F) (fr_fg _ _ _ G)).
+  - exact (or_eq_trans _ _ _ _ (fr_bg _ _ _ F) (fr_bg _ _ _ G)).
+  - exact (or_eq_trans _ _ _ _ (fr_wclip _ _ _ F) (fr_wclip _ _ _ G)).
+Qed.
+
+Definition exact_upd (it : item) (s : vxstate) (o : outcome) : Prop :=
+  forall s' es, o = Ok s' es ->
+    frame it s s' /\ Forall (fun e => ev_source e it = true) (events_of es).
+
+Section Exact.
+Variable dec : item -> ikey.
+Variable b64 : list Z -> option (list Z).
+
+Ltac fr F := destruct F; constructor; cbn; auto.
+
+Lemma frame_set_q it s s1 q : frame it s s1 -> frame it s (set_q s1 q).
+Proof. intros F; fr F. Qed.
+Lemma frame_set_paste it s s1 b : frame it s s1 -> is_paste_bracket it = true -> frame it s (set_paste s1 b).
+Proof. intros F H; fr F. Qed.
+Lemma frame_set_req it s s1 b : frame it s s1 -> csi_is it 82 = true -> frame it s (set_req s1 b).
+Proof. intros F H; fr F. Qed.
+Lemma frame_set_w_cursor it s s1 b : frame it s s1 -> csi_is it 82 = true -> frame it s (set_w_cursor s1 b).
+Proof. intros F H; fr F. Qed.
+Lemma frame_set_resize it s s1 b : frame it s s1 -> csi_p0_is it 116 48 = true -> frame it s (set_resize s1 b).
+Proof. intros F H; fr F. Qed.
+Lemma frame_set_size_pix it s s1 x y : frame it s s1 -> csi_p0_is it 116 4 = true ->
+  frame it s (set_next_size s1 (mkSize (s_cols (next_size s1)) (s_rows (next_size s1)) x y)).
+Proof. intros F H; fr F. Qed.
+Lemma frame_set_size_chars it s s1 c r : frame it s s1 -> csi_p0_is it 116 8 = true ->
+  frame it s (set_next_size s1 (mkSize c r (s_xpix (next_size s1)) (s_ypix (next_size s1)))).
+Proof. intros F H; fr F. Qed.
+Lemma frame_set_size_all it s s1 z : frame it s s1 -> csi_p0_is it 116 48 = true ->
+  frame it s (set_next_size s1 z).
+Proof. intros F H; fr F. Qed.
+Lemma frame_set_user_cursor it s s1 v : frame it s s1 -> dcs_is it 114 36 = true -> frame it s (set_user_cursor s1 v).
+Proof. intros F H; fr F. Qed.
+Lemma frame_set_size_done it s s1 v : frame it s s1 -> csi_p0_is it 116 8 = true -> frame it s (set_size_done s1 v).
+Proof. intros F H; fr F. Qed.
+Lemma frame_set_ch_color it s s1 v : frame it s s1 -> osc_is it [52] = true -> frame it s (set_ch_color s1 v).
+Proof. intros F H; fr F. Qed.
+Lemma frame_set_ch_fg it s s1 v : frame it s s1 -> osc_is it [49; 48] = true -> frame it s (set_ch_fg s1 v).
+Proof. intros F H; fr F. Qed.
+Lemma frame_set_ch_bg it s s1 v : frame it s s1 -> osc_is it [49; 49] = true -> frame it s (set_ch_bg s1 v).
+Proof. intros F H; fr F. Qed.
+Lemma frame_set_w_clip it s s1 b : frame it s s1 -> osc_is it [53; 50] = true -> frame it s (set_w_clip s1 b).
+Proof. intros F H; fr F. Qed.
+
+Lemma eu_ret it s s1 : frame it s s1 -> exact_upd it s (ret s1).
+Proof. intros F s' es E. injection E as <- <-. split; [exact F|constructor]. Qed.
+
+Lemma eu_post it s s1 e : frame it s s1 -> ev_source e it = true -> exact_upd it s (post e s1).
+Proof.
+  intros F He s' es E. unfold post in E. destruct (q_stalled s1) as [n|].
+  - destruct (0 <? n); [|discriminate]. injection E as <- <-.
+    split; [apply frame_set_q; exact F|repeat constructor; exact He].
+  - injection E as <- <-. split; [exact F|repeat constructor; exact He].
+Qed.
+
+Lemma eu_try_post it s s1 e : frame it s s1 -> ev_source e it = true -> exact_upd it s (try_post e s1).
+Proof.
+  intros F He s' es E. unfold try_post in E. destruct (q_stalled s1) as [n|].
+  - destruct (0 <? n); injection E as <- <-.
+    + split; [apply frame_set_q; exact F|repeat constructor; exact He].
+    + split; [exact F|constructor].
+  - injection E as <- <-. split; [exact F|repeat constructor; exact He].
+Qed.
+
+Lemma events_of_app a b : events_of (a ++ b) = events_of a ++ events_of b.
+Proof. unfold events_of. apply flat_map_app. Qed.
+
+Lemma eu_bind it s o f : exact_upd it s o -> (forall s1, frame it s s1 -> exact_upd it s (f s1)) ->
+  exact_upd it s (bind o f).
+Proof.
+  intros Ho Hf s' es E. destruct o as [s1 es1| |]; cbn [bind] in E; try discriminate.
+  destruct (Ho s1 es1 eq_refl) as [F1 A1]. specialize (Hf s1 F1).
+  destruct (f s1) as [s2 es2| |] eqn:Ef; try discriminate. injection E as <- <-.
+  destruct (Hf s2 es2 eq_refl) as [F2 A2]. split; [exact F2|].
+  rewrite events_of_app. apply Forall_app; split; assumption.
+Qed.
+
+Lemma eu_panic it s es : exact_upd it s (Panic es).
+Proof. intros s' es' E; discriminate. Qed.
+
+Lemma eu_ok it s s1 es : frame it s s1 -> Forall (fun e => ev_source e it = true) (events_of es) ->
+  exact_upd it s (Ok s1 es).
+Proof. intros F H s' es' E. injection E as <- <-. split; assumption. Qed.
+
+Lemma eu_post_key it s s1 x : frame it s s1 -> exact_upd it s (post_key dec x s1).
+Proof. intros F. apply eu_post; [exact F|reflexivity]. Qed.
+
+Ltac src_tac :=
+  unfold is_paste_bracket; cbn [ev_source cap_source csi_p0_is csi_q_is csi_is osc_is dcs_is apc_is];
+  unfold p00_is; rewrite <- ?par_p00;
+  repeat match goal with H : ?a = ?b |- context [?a] => rewrite H end;
+  cbn; first [ reflexivity | lia ].
+
+Ltac frame_tac :=
+  repeat first
+    [ assumption
+    | apply frame_set_paste | apply frame_set_req | apply frame_set_w_cursor | apply frame_set_resize
+    | apply frame_set_size_pix | apply frame_set_size_chars | apply frame_set_size_all
+    | apply frame_set_user_cursor | apply frame_set_size_done | apply frame_set_ch_color
+    | apply frame_set_ch_fg | apply frame_set_ch_bg | apply frame_set_w_clip ];
+  try src_tac.
+
+Ltac leaf :=
+  first [ apply eu_ret; frame_tac
+        | apply eu_post_key; frame_tac
+        | apply eu_post; [frame_tac|src_tac]
+        | apply eu_try_post; [frame_tac|src_tac]
+        | apply eu_panic
+        | apply eu_ok; [frame_tac|repeat constructor] ].
+
+Ltac need_par Hps :=
+  match goal with
+  | |- context [need (par ?ps ?k) _] =>
+      let v := fresh "v" in let E := fresh "Ev" in
+      destruct (par_some ps k Hps) as [v E]; [pose proof (zlen_nonneg ps); lia|]; rewrite E; cbn [need]
+  end.
+
+Ltac crush Hps :=
+  repeat first
+    [ leaf
+    | need_par Hps
+    | match goal with
+      | |- exact_upd _ _ (bind _ _) => apply eu_bind; [|intros ? ?]
+      | |- exact_upd _ _ (if ?c then _ else _) => destruct c eqn:?
+      | |- exact_upd _ _ (match ?c with _ => _ end) => destruct c eqn:?
+      end ].
+
+Lemma eu_da1 it : csi_q_is it 99 = true -> forall ps s s1, nonempty_all ps -> frame it s s1 ->
+  exact_upd it s (da1_loop ps s1).
+Proof.
+  intros Hit. induction ps as [|p t IH]; intros s s1 Hps F; cbn [da1_loop]; [apply eu_ret; exact F|].
+  pose proof (Forall_inv Hps) as Hp. destruct p as [|v p']; [congruence|].
+  change (zget (v :: p') 0) with (Some v). cbn [need].
+  apply eu_bind.
+  - destruct (v =? 4); [apply eu_post; [exact F|cbn; rewrite Hit; reflexivity]|apply eu_ret; exact F].
+  - intros s2 F2. apply IH; [exact (Forall_inv_tail Hps)|exact F2].
+Qed.
+
+Lemma eu_csi inter ps fin s : nonempty_all ps ->
+  exact_upd (ICsi inter ps fin) s (handle_csi dec inter ps fin s).
+Proof.
+  intros Hps. pose proof (frame_refl (ICsi inter ps fin) s) as F0.
+  unfold handle_csi, decrpm, send_cursor, send_size_done.
+  crush Hps.
+  apply eu_da1; [cbn; rewrite Heqb, Heqb0; reflexivity|assumption|assumption].
+Qed.
+
+Ltac need_zget :=
+  match goal with
+  | |- context [need (zget ?l ?k) _] =>
+      let v := fresh "v" in let E := fresh "Ev" in
+      destruct (zget_in_range l k) as [v E]; [pose proof (zlen_nonneg l); lia|]; rewrite E; cbn [need]
+  end.
+
+Ltac crush0 :=
+  repeat first
+    [ leaf
+    | need_zget
+    | match goal with
+      | |- exact_upd _ _ (bind _ _) => apply eu_bind; [|intros ? ?]
+      | |- exact_upd _ _ (if ?c then _ else _) => destruct c eqn:?
+      | |- exact_upd _ _ (match ?c with _ => _ end) => destruct c eqn:?
+      end ].
+
+Lemma eu_dcs fin inter ps data s :
+  exact_upd (IDcs fin inter ps data) s (handle_dcs fin inter ps data s).
+Proof.
+  pose proof (frame_refl (IDcs fin inter ps data) s) as F0.
+  unfold handle_dcs.
+  destruct (split_on_nonempty 61 (gostring data) []) as (h & t & Es). rewrite Es.
+  change (zget (h :: t) 0) with (Some h). cbn [need].
+  destruct inter as [|i0 inter'].
+  { change (zlen (@nil Z) <? 1) with true. cbn iota. crush0. }
+  change (zget (i0 :: inter') 0) with (Some i0). cbn [need].
+  destruct (suffixb [32; 113] (gostring data)) eqn:Esuf.
+  - pose proof (suffixb_nonempty _ _ _ Esuf) as Hne. destruct data as [|d0 dt]; [exfalso; apply Hne; reflexivity|].
+    change (zget (d0 :: dt) 0) with (Some d0). cbn [need]. crush0.
+  - crush0.
+Qed.
+
+Lemma eu_osc payload s : exact_upd (IOsc payload) s (handle_osc b64 payload s).
+Proof.
+  pose proof (frame_refl (IOsc payload) s) as F0.
+  unfold handle_osc, osc_color, send_clip. crush0.
+  all: match goal with |- context [if ?c then _ else _] => destruct c end; frame_tac.
+Qed.
+
+(* reply_updates_exactly: whatever handleSequence does on a deliverable sequence, the state
+   components it changes and the internal events it emits are only those the sequence reports *)
+Theorem handle_exact s it : wf it -> exact_upd it s (handle dec b64 s it).
+Proof.
+  intros Hw. pose proof (frame_refl it s) as F0.
+  destruct it; cbn [handle]; try leaf.
+  - apply eu_csi. apply wf_csi_iff in Hw. exact Hw.
+  - apply eu_osc.
+  - apply eu_dcs.
+  - crush0.
+Qed.
+End Exact.
+
+(* ================= D. each reply delivers its answer ================= *)
+Section Answers.
+Variable dec : item -> ikey.
+Variable b64 : list Z -> option (list Z).
+
+(* CSI 8 ; h ; w t : the size is recorded; once the capability is known the waiting
+   reportWinsize gets its token, and a repeated report is dropped instead of blocking *)
+Theorem answer_size_chars inter h w s : live s -> 0 <= size_done s <= 1 ->
+  exists s' es, handle dec b64 s (ICsi inter [[8]; [h]; [w]] 116) = Ok s' es /\
+    next_size s' = mkSize w h (s_xpix (next_size s)) (s_ypix (next_size s)) /\
+    (c_chars (vcaps s) = true -> es = [] /\ size_done s' = 1) /\
+    (c_chars (vcaps s) = false -> es = [Ev (ECap CChars)] /\ size_done s' = size_done s).
+Proof.
+  intros Hl Hsd. unfold live in Hl. cbn. unfold send_size_done, post. cbn.
+  destruct (c_chars (vcaps s)); cbn.
+  - destruct (size_done s <? 1) eqn:E; eexists; eexists; (split; [reflexivity|]); cbn;
+      (split; [reflexivity|]); split; intros; try discriminate; split; try reflexivity; lia.
+  - rewrite Hl. eexists; eexists; (split; [reflexivity|]); cbn.
+    split; [reflexivity|]. split; intros; try discriminate. split; reflexivity.
+Qed.
+
+(* CSI r ; c R while a request is outstanding: handed to the waiting CursorPosition; when the
+   caller has already left (the 50 ms race) the report is dropped; never a key, never a block *)
+Theorem answer_cursor inter r c s : req_cursor s = true ->
+  handle dec b64 s (ICsi inter [[r]; [c]] 82) =
+  if w_cursor s then Ok (set_w_cursor (set_req s false) false) [ToCursor r c]
+  else Ok (set_req s false) [].
+Proof. intros Hr. cbn. rewrite Hr. cbn. unfold send_cursor. cbn. reflexivity. Qed.
+
+(* OSC 4 / 10 / 11 replies once the capability is known: the first is buffered for Query*, a
+   repeated one is dropped (the buffered answer stays), never a block *)
+Theorem answer_color payload s : live s -> c_osc4 (vcaps s) = true ->
+  prefixb [52] (gostring payload) = true ->
+  exists s', handle dec b64 s (IOsc payload) = Ok s' [Ev (ECap COsc4)] /\
+    ch_color s' = match ch_color s with None => Some (gostring payload) | Some x => Some x end.
+Proof.
+  intros Hl Hc Hp. unfold live in Hl. cbn. unfold handle_osc. rewrite Hp.
+  assert (Hother : forall c q, c <> 52 -> prefixb (c :: q) (gostring payload) = false).
+  { intros c q Hc'. destruct (gostring payload) as [|x t].
+    - cbn [prefixb] in Hp. congruence.
+    - cbn [prefixb] in Hp |- *. destruct (52 =? x) eqn:E.
+      + destruct (c =? x) eqn:E2; [lia|reflexivity].
+      + cbn [andb] in Hp. congruence. }
+  assert (H10 := Hother 49 [48] ltac:(lia)). assert (H11 := Hother 49 [49] ltac:(lia)).
+  assert (H52 := Hother 53 [50] ltac:(lia)). assert (H176 := Hother 49 [55; 54] ltac:(lia)).
+  rewrite H10, H11, H52, H176. unfold osc_color, post. rewrite Hc. cbn. rewrite Hl. cbn.
+  eexists. split; [reflexivity|]. cbn. destruct (ch_color s); reflexivity.
+Qed.
+
+(* OSC 52 ; c ; <base64> : handed to the waiting ClipboardPop, otherwise dropped after 10 ms *)
+Theorem answer_clipboard sel v b s :
+  b64 (gostring v) = Some b -> existsb (Z.eqb 59) (gostring sel) = false -> existsb (Z.eqb 59) (gostring v) = false ->
+  handle dec b64 s (IOsc ([53; 50; 59] ++ sel ++ [59] ++ v)) =
+  if w_clip s then Ok (set_w_clip s false) [ToClip b] else Ok s [].
+Proof.
+  intros Hb Hs Hv. cbn [handle]. unfold handle_osc.
+  assert (Hg : gostring ([53; 50; 59] ++ sel ++ [59] ++ v) = [53; 50; 59] ++ gostring sel ++ [59] ++ gostring v).
+  { unfold gostring. rewrite !map_app. reflexivity. }
+  rewrite Hg. cbn [app prefixb Z.eqb Pos.eqb andb].
+  assert (Hsplit : forall a cur, existsb (Z.eqb 59) a = false -> forall rest,
+            split_on 59 cur (a ++ 59 :: rest) = (cur ++ a) :: split_on 59 [] rest).
+  { induction a as [|x a IH]; intros cur Ha rest; cbn [app split_on].
+    - rewrite app_nil_r. reflexivity.
+    - cbn [existsb] in Ha. apply orb_false_elim in Ha as [Hx Ha].
+      rewrite Z.eqb_sym in Hx. rewrite Hx. rewrite (IH _ Ha). rewrite <- app_assoc. reflexivity. }
+  assert (Hlast : forall a cur, existsb (Z.eqb 59) a = false -> split_on 59 cur a = [cur ++ a]).
+  { induction a as [|x a IH]; intros cur Ha; cbn [split_on].
+    - rewrite app_nil_r. reflexivity.
+    - cbn [existsb] in Ha. apply orb_false_elim in Ha as [Hx Ha].
+      rewrite Z.eqb_sym in Hx. rewrite Hx. rewrite (IH _ Ha). rewrite <- app_assoc. reflexivity. }
+  assert (Hpre : forall rest, split_on 59 [] (53 :: 50 :: 59 :: rest) = [53; 50] :: split_on 59 [] rest) by reflexivity.
+  rewrite Hpre.
+  rewrite (Hsplit _ [] Hs), (Hlast _ [] Hv). cbn [app].
+  change (zlen [[53; 50]; gostring sel; gostring v] =? 3) with true. cbn [negb].
+  change (zget [[53; 50]; gostring sel; gostring v] 2) with (Some (gostring v)). cbn [need].
+  rewrite Hb. unfold send_clip, ret. cbn [bind]. destruct (w_clip s); reflexivity.
+Qed.
+
+(* DCS 1 $ r <n> SP q ST : the user's cursor style *)
+Theorem answer_cursor_style inter' ps n s : 48 <= n <= 54 ->
+  handle dec b64 s (IDcs 114 (36 :: inter') ps [n; 32; 113]) = Ok (set_user_cursor s (n - 48)) [].
+Proof.
+  intros Hn. cbn [handle]. unfold handle_dcs. cbn.
+  assert (E1 : (Z.pos (Pos.of_succ_nat (length inter')) <? 1) = false) by lia. rewrite E1.
+  destruct ((n <? 48) || (54 <? n)) eqn:E; [lia|reflexivity].
+Qed.
+End Answers.
+
+(* ================= E. the start-up loop of New ================= *)
+Definition is_da1 (e : event) : bool := match e with EDA1 => true | _ => false end.
+Fixpoint before_da1 (evs : list event) : list event :=
+  match evs with [] => [] | e :: t => if is_da1 e then [] else e :: before_da1 t end.
+Fixpoint after_da1 (evs : list event) : list event :=
+  match evs with [] => [] | e :: t => if is_da1 e then t else after_da1 t end.
+
+Definition capev_eqb (a b : capev) : bool := capev_code a =? capev_code b.
+Definition is_cap (c : capev) (e : event) : bool := match e with ECap c' => capev_eqb c c' | _ => false end.
+
+Lemma caps_get_set cp c c' : caps_get (caps_set cp c) c' = capev_eqb c' c || caps_get cp c'.
+Proof. destruct c, c'; reflexivity. Qed.
+
+Lemma caps_get_osc176 cp c : caps_get (set_osc176 cp) c = caps_get cp c.
+Proof. destruct c; reflexivity. Qed.
+
+Lemma startup_event_caps dk su e :
+  snd (startup_event dk su e) = is_da1 e /\
+  forall c, caps_get (su_caps (fst (startup_event dk su e))) c =
+            caps_get (su_caps su) c || (is_cap c e && negb (dk && capev_eqb c CKittyKb)).
+Proof.
+  destruct e; cbn [startup_event is_da1 is_cap fst snd andb]; try (split; [reflexivity|]; intros c0; rewrite ?orb_false_r; reflexivity).
+  all: try (split; [reflexivity|]; intros c0; cbn [su_caps]; rewrite caps_get_osc176, orb_false_r; reflexivity).
+  split; [destruct c, dk; reflexivity|].
+  intros c0. destruct c, dk, c0; cbn; rewrite ?orb_true_r, ?orb_false_r; reflexivity.
+Qed.
+
+(* the loop learns exactly the capabilities whose events precede the DA1 reply (the kitty
+   keyboard one unless disabled by the option), loses nothing that follows it, and stops at it *)
+Theorem collect_caps_exact dk evs : forall su,
+  let '(su', rest, got) := collect_caps dk su evs in
+  rest = after_da1 evs /\ got = existsb is_da1 evs /\
+  forall c, caps_get (su_caps su') c =
+            caps_get (su_caps su) c ||
+            (existsb (is_cap c) (before_da1 evs) && negb (dk && capev_eqb c CKittyKb)).
+Proof.
+  induction evs as [|e t IH]; intros su.
+  - cbn. repeat split. intros c. rewrite orb_false_r. reflexivity.
+  - cbn [collect_caps before_da1 after_da1 existsb].
+    destruct (startup_event_caps dk su e) as [Hstop Hcaps].
+    destruct (startup_event dk su e) as [su1 stop]. cbn [fst snd] in *. subst stop.
+    destruct (is_da1 e) eqn:Ed.
+    + cbn. repeat split. intros c. rewrite Hcaps. destruct e; try discriminate. reflexivity.
+    + specialize (IH su1). destruct (collect_caps dk su1 t) as [[su' rest] got].
+      destruct IH as (H1 & H2 & H3). cbn [orb]. repeat split; try assumption.
+      intros c. rewrite H3, Hcaps. cbn [existsb].
+      destruct (caps_get (su_caps su) c), (is_cap c e), (existsb (is_cap c) (before_da1 t)),
+        (negb (dk && capev_eqb c CKittyKb)); reflexivity.
+Qed.
+
+(* what the application finds in its queue after New, given the sequences that arrived before
+   New's loop ended (run with no capability known yet, a cursor-position request outstanding) *)
+Definition startup_delivered (dec : item -> ikey) (dk : bool) (items : list item) : list event :=
+  match run dec (fun _ => None) (app_step vx0 ACursorQuery) items with
+  | Ok _ es => snd (fst (collect_caps dk startup0 (events_of es)))
+  | _ => []
+  end.
+
+(* at full strength the property fails during start-up: a key typed before the terminal has
+   answered the DA1 query is consumed by New's loop and never reaches the application *)
+Theorem startup_loses_typeahead_refuted :
+  exists dec dk items,
+    spec_user dec false true (map SItem items) <> [] /\
+    filter is_user (startup_delivered dec dk items) = [].
+Proof.
+  exists (fun _ => mkIKey [97] 97 0 0 0 0), false, [IPrint [97]; ICsi [63] [[62]; [22]] 99].
+  split; [discriminate|reflexivity].
+Qed.
+
+(* ================= C. the statements used by props/C03.v ================= *)
+
+Theorem input_total dec b64 s it : wf it -> live s ->
+  exists s' es, handle dec b64 s it = Ok s' es /\ live s'.
+Proof.
+  intros Hw Hl. pose proof (handle_spec dec b64 s it Hw Hl) as H. unfold spec_ok in H.
+  destruct (spec_item dec (paste s) (req_cursor s) it) as [[ue p'] r'].
+  destruct H as (s' & es & E & Hl' & _). eauto.
+Qed.
+
+Lemma items_steps_ok its : Forall wf its -> Forall step_ok (map SItem its).
+Proof. intros H. apply Forall_map. exact H. Qed.
+
+(* composition with the parser model: for EVERY byte stream *)
+Theorem run_bytes dec b64 bs s : live s ->
+  exists s' es, run dec b64 s (parse_bytes bs) = Ok s' es /\ live s' /\
+    user_events es = spec_user dec (paste s) (req_cursor s) (map SItem (parse_bytes bs)).
+Proof.
+  intros Hl. rewrite run_is_run_steps.
+  exact (run_steps_spec dec b64 _ s (items_steps_ok _ (parse_bytes_wf bs)) Hl).
+Qed.
+
+(* ... and for every segmentation of it by silences that let the Escape timer fire *)
+Theorem run_segments dec b64 segs s : live s ->
+  exists s' es, run dec b64 s (parse_segments segs) = Ok s' es /\ live s' /\
+    user_events es = spec_user dec (paste s) (req_cursor s) (map SItem (parse_segments segs)).
+Proof.
+  intros Hl. rewrite run_is_run_steps.
+  exact (run_steps_spec dec b64 _ s (items_steps_ok _ (parse_segments_wf segs)) Hl).
+Qed.
